@@ -316,7 +316,7 @@ class UnitDualQuaternion(DualQuaternion):
             self.dual = dual  # quaternion, dual part
         elif dual is None and isinstance(real, SE3):
             T = real
-            S = UnitQuaternion(T.R)
+            S = UnitQuaternion(T)  # T is a pose object, its value is not validated again
             D = Quaternion.Pure(T.t)
         
             self.real = S
